@@ -165,6 +165,51 @@ def run(ctx) -> None:
         ctx.ob("C03.R2-naming-agreement", lp, ok, "the aggregating component consumes all N copies in index order" if ok else
                "the aggregate expansion does not list copies 0..N-1 in order", construct="for %s in %s (aggregate)" % (source.src(lp.target), source.src(lp.iter)))
 
+    # index order must survive: the lists of rewritten replica references are only appended to in range(count) order
+    derived = {"translation_map"}
+    changed = True
+    while changed:
+        changed = False
+        for n in ast.walk(agg):
+            targets = []
+            it = None
+            if isinstance(n, ast.For):
+                targets, it = [n.target], n.iter
+            elif isinstance(n, ast.comprehension):
+                targets, it = [n.target], n.iter
+            elif isinstance(n, ast.Assign) and len(n.targets) == 1:
+                targets, it = [n.targets[0]], n.value
+            if it is not None and set(source.names_in(it)) & derived:
+                for t in targets:
+                    for nm in ast.walk(t):
+                        if isinstance(nm, ast.Name) and nm.id not in derived and nm.id not in ("string", "ref", "m", "path", "separator", "orig_string", "replacement", "expression"):
+                            derived.add(nm.id)
+                            changed = True
+    bad_order = []
+    for n in ast.walk(agg):
+        if isinstance(n, ast.Call):
+            cn = call_name(n) or ""
+            la = last_attr(n)
+            args_names = set()
+            for a in list(n.args) + [k.value for k in n.keywords]:
+                args_names |= set(source.names_in(a))
+            recv_names = set(source.names_in(n.func.value)) if isinstance(n.func, ast.Attribute) else set()
+            if cn in ("sorted", "set", "frozenset", "reversed", "random.shuffle", "random.sample") and args_names & derived:
+                bad_order.append(n)
+            if la in ("sort", "reverse", "add", "discard") and recv_names & derived:
+                bad_order.append(n)
+            if la == "setdefault" and recv_names & derived and len(n.args) > 1 and not isinstance(n.args[1], ast.List):
+                bad_order.append(n)
+        if isinstance(n, (ast.Set, ast.SetComp)) and set(source.names_in(n)) & derived:
+            bad_order.append(n)
+    for b_ in bad_order:
+        ctx.ob("C03.R2-naming-agreement", b_, False,
+               "the rewritten replica references collected for the aggregating component are re-ordered / de-duplicated through %s: "
+               "replica names sort as strings ('X10' before 'X2'), so with 11 or more replicas the copies are no longer consumed in "
+               "index order" % short(b_, 60))
+    ctx.ob("C03.R2-naming-agreement", agg, not bad_order, "the per-reference lists of replica references keep their range(count) order (no sort/set applied)",
+           construct="translation_map keeps index order", trivial=bool(bad_order))
+
     # ---------------- R3 -------------------------------------------------------------------------------
     cfg = CFG(app)
     ctx.paths += cfg.paths_count()
